@@ -60,6 +60,9 @@ var nameBases = []string{"x", "y", "v", "val", "_", "_9", "a1", "Temp", "MDLN", 
 
 // VarName returns a fresh, valid variable name.
 func (g *G) VarName() string {
+	if g.used == nil {
+		g.used = map[string]bool{}
+	}
 	for {
 		n := g.R.PickStr(nameBases)
 		if g.R.Chance(1, 3) {
